@@ -7,7 +7,8 @@ use crate::util::hash_of;
 use crate::{ensure, ensure_eq};
 use proptest::prelude::*;
 use serde::{Deserialize, Serialize};
-use simple_sds::serialize::{MappingMode, MemoryMap};
+use simple_sds::serialize::{MappedOption, MappedSlice, MappingMode, MemoryMap, MemoryMapped, Serialize as Sds};
+use std::io;
 use std::collections::BTreeMap;
 
 pub struct C13;
@@ -18,6 +19,36 @@ pub struct Case {
     pub mutable: bool,
     /// extra truncation points as fractions of the file
     pub cuts: Vec<u16>,
+    /// an optional user-defined composite (a vector followed by an extension) appended to the file, then one more vector
+    #[serde(default)]
+    pub ext: Option<(Vec<u64>, Vec<u64>)>,
+}
+
+/// A user-defined composite whose first field is a vector: an older reader that only knows the first field
+/// views `Option<Extended>` as `MappedOption<MappedSlice<u64>>` (and loads it as `Option<Vec<u64>>`); the
+/// stored length of the optional structure still covers the extension.
+#[derive(Clone, Debug, PartialEq, Eq)]
+struct Extended {
+    first: Vec<u64>,
+    extension: Vec<u64>,
+}
+
+impl Sds for Extended {
+    fn serialize_header<T: io::Write>(&self, _: &mut T) -> io::Result<()> {
+        Ok(())
+    }
+    fn serialize_body<T: io::Write>(&self, writer: &mut T) -> io::Result<()> {
+        Sds::serialize(&self.first, writer)?;
+        Sds::serialize(&self.extension, writer)
+    }
+    fn load<T: io::Read>(reader: &mut T) -> io::Result<Self> {
+        let first = Vec::<u64>::load(reader)?;
+        let extension = Vec::<u64>::load(reader)?;
+        Ok(Extended { first, extension })
+    }
+    fn size_in_elements(&self) -> usize {
+        self.first.size_in_elements() + self.extension.size_in_elements()
+    }
 }
 
 fn map_file(path: &std::path::Path, mutable: bool) -> std::io::Result<MemoryMap> {
@@ -45,7 +76,7 @@ fn try_map(x: &dyn Erased, map: &MemoryMap, offset: usize) -> Mapped {
 impl Prop for C13 {
     type Case = Case;
     const ID: &'static str = "C13";
-    const RULE: &'static str = "files made of 1..6 concatenated serialized values of the mappable kinds (Vec<u64>, Vec<usize>, Vec<(u64,u64)>, Vec<u8>, String, RawVector and IntVector incl. ones left by operation histories, each plain / None / Some; empty ones included), both mapping modes: for each structure k at element offset o_k the mapped view must be created, expose exactly the loaded content (Index, Deref, Access, AccessRaw, len, count_ones, iter), report map_offset = o_k and map_offset + map_len = o_(k+1) (tiling; the last ends at map.len()); every offset in {len, len+1, 2*len, 2^63, MAX-1, MAX} must be refused with Err (no panic); for every element-granular truncation of the file the structure that is cut short must be refused while structures wholly before the cut still map and tile. Non-trivial: >= 2 structures with a non-empty one; distinct by file bytes.";
+    const RULE: &'static str = "files made of 1..6 concatenated serialized values of the mappable kinds (Vec<u64>, Vec<usize>, Vec<(u64,u64)>, Vec<u8>, String, RawVector and IntVector incl. ones left by operation histories, each plain / None / Some; empty ones included), both mapping modes: for each structure k at element offset o_k the mapped view must be created, expose exactly the loaded content (Index, Deref, Access, AccessRaw, len, count_ones, iter), report map_offset = o_k and map_offset + map_len = o_(k+1) (tiling; the last ends at map.len()); every offset in {len, len+1, 2*len, 2^63, MAX-1, MAX} must be refused with Err (no panic); for every element-granular truncation of the file the structure that is cut short must be refused while structures wholly before the cut still map and tile. In 30% of the files an optional user-defined composite (a Vec<u64> followed by an extension vector) and one more vector are appended: viewed as MappedOption<MappedSlice<u64>> (what Option::<Vec<u64>>::load reads) its map_offset + map_len must still be the offset of the next structure, i.e. the stored length + 1. Non-trivial: >= 2 structures with a non-empty one; distinct by file bytes.";
 
     fn cases(tier: Tier) -> u32 {
         tier.pick(3000, 40_000)
@@ -53,7 +84,8 @@ impl Prop for C13 {
 
     fn strategy(tier: Tier, _cfg: &str) -> BoxedStrategy<Case> {
         let max_bits = tier.pick(3000usize, 20_000usize);
-        (proptest::collection::vec(mappable_spec(max_bits), 1..6), any::<bool>(), proptest::collection::vec(any::<u16>(), 0..8)).prop_map(|(vals, mutable, cuts)| Case { vals, mutable, cuts }).boxed()
+        let ext = proptest::option::weighted(0.3, (proptest::collection::vec(any::<u64>(), 0..5), proptest::collection::vec(any::<u64>(), 0..5)));
+        (proptest::collection::vec(mappable_spec(max_bits), 1..6), any::<bool>(), proptest::collection::vec(any::<u16>(), 0..8), ext).prop_map(|(vals, mutable, cuts, ext)| Case { vals, mutable, cuts, ext }).boxed()
     }
 
     fn run(case: &Case) -> CaseResult {
@@ -65,8 +97,18 @@ impl Prop for C13 {
             offsets.push(file.len() / 8);
             file.extend(ser_bytes(x.as_ref()));
         }
+        // the optional composite with an extension, followed by one more structure
+        let mut ext_at: Option<(usize, usize)> = None;
+        if let Some((first, extension)) = &case.ext {
+            let start = file.len() / 8;
+            let x = Some(Extended { first: first.clone(), extension: extension.clone() });
+            Sds::serialize(&x, &mut file).expect("serialize into a Vec");
+            let next = file.len() / 8;
+            Sds::serialize(&vec![0xE7u64; 2], &mut file).expect("serialize into a Vec");
+            ext_at = Some((start, next));
+        }
         let total = file.len() / 8;
-        offsets.push(total);
+        offsets.push(ext_at.map(|(s, _)| s).unwrap_or(total));
         let key = hash_of(&file);
         let path = std::env::temp_dir().join(format!("c13-{}-{:016x}-{:?}", std::process::id(), key, std::thread::current().id()).replace(['(', ')'], ""));
         let result = (|| -> Result<(), Fail> {
@@ -94,6 +136,39 @@ impl Prop for C13 {
                         }
                     }
                 }
+            }
+            if let (Some((start, next)), Some((first, _))) = (ext_at, &case.ext) {
+                let map = map_file(&path, case.mutable).map_err(|e| Fail::new("MemoryMap.new", format!("mapping a file of {} elements failed: {}", total, e)))?;
+                let r = catch(|| -> io::Result<Result<(usize, usize), String>> {
+                    let view = MappedOption::<MappedSlice<u64>>::new(&map, start)?;
+                    if !view.is_some() {
+                        return Ok(Err("the optional composite is reported absent".into()));
+                    }
+                    let inner: &[u64] = view.unwrap().as_ref();
+                    if inner != first.as_slice() {
+                        return Ok(Err("the view of the first field differs from what Option::<Vec<u64>>::load gives".into()));
+                    }
+                    let after = MappedSlice::<u64>::new(&map, view.map_offset() + view.map_len())?;
+                    let a: &[u64] = after.as_ref();
+                    if a != [0xE7u64; 2] {
+                        return Ok(Err(format!("the structure found at map_offset()+map_len() = {} is not the one stored after the optional composite (at {})", view.map_offset() + view.map_len(), next)));
+                    }
+                    Ok(Ok((view.map_offset(), view.map_len())))
+                });
+                match r {
+                    Ok(Ok(Ok((o, l)))) => {
+                        ensure_eq!(o, start, "map_offset", "map_offset() of an optional composite viewed through its first field");
+                        ensure_eq!(o + l, next, "map_len", "map_offset()+map_len() of an optional composite with an extension must be the offset of the next structure (stored length + 1)");
+                    }
+                    Ok(Ok(Err(m))) => return Err(Fail::new("map.content", format!("optional composite with an extension at offset {}: {}", start, m))),
+                    Ok(Err(e)) => return Err(Fail::new("map.refused", format!("optional composite with an extension at offset {} was refused: {}", start, e))),
+                    Err((loc, msg)) => return Err(Fail::new(format!("map.panic@{}", loc), format!("mapping an optional composite with an extension panicked at {}: {}", loc, msg))),
+                }
+                // the loading side of the same reading
+                let mut cur = io::Cursor::new(&file[8 * start..]);
+                let loaded = Option::<Vec<u64>>::load(&mut cur).map_err(|e| Fail::new("load", format!("Option::<Vec<u64>>::load on an optional composite: {}", e)))?;
+                ensure!(loaded.as_deref() == Some(first.as_slice()), "load", "Option::<Vec<u64>>::load on an optional composite gives the first field");
+                rep.class("optional-composite-with-extension");
             }
             // truncations
             let mut cuts: Vec<usize> = if total <= 160 { (1..total).collect() } else { Vec::new() };
@@ -156,7 +231,7 @@ impl Prop for C13 {
     }
 
     fn health(classes: &BTreeMap<String, u64>, _tier: Tier) -> Result<(), String> {
-        for c in ["RawVector", "IntVector", "RawVector(history)", "IntVector(history)", "Vec<u8>", "String", "Vec<pair>", "Some:RawVector", "None:IntVector", "Some:String", "mode:mutable", "mode:read-only", "empty-structure-at-end-of-file", "structures:5"] {
+        for c in ["RawVector", "IntVector", "RawVector(history)", "IntVector(history)", "Vec<u8>", "String", "Vec<pair>", "Some:RawVector", "None:IntVector", "Some:String", "mode:mutable", "mode:read-only", "empty-structure-at-end-of-file", "structures:5", "optional-composite-with-extension"] {
             if classes.get(c).copied().unwrap_or(0) == 0 {
                 return Err(format!("no generated case reached class {}", c));
             }
